@@ -199,8 +199,8 @@ def main(run):
     run.trusted += ["Coq 8.16.1 kernel and vm_compute",
                     "hand-written model coq/Model/C13_CMAexec.v (lists, generic number type) tied to /repo by correspondence at the "
                     "PrimFloat instance; the theorems are about coq/Model/C13_CMAalg.v (mathcomp matrices), which the list model "
-                    "refines at every real closed field (Props/C13_refine.v: computeParams, __init__, generate, update); not linked "
-                    "by proof: the two stable sorts (insertion vs mathcomp merge; each proved order-independent) and int(4+3 log N)",
+                    "refines at every real closed field (Props/C13_refine.v: computeParams, __init__, generate, update end to end incl. "
+                    "the population sort); not linked by proof: int(4 + 3 log N) (default lambda_) and the PrimFloat instance itself",
                     "numpy.linalg.eigh as an oracle: contract V diag(w) V^T = C, V^T V = I checked numerically on every value used",
                     "PrimFloat exp/ln approximations of coq/Base/C13_FloatFun.v (only inside the tolerance comparison)",
                     "N3 tolerance: rtol 1e-9 relative to the largest magnitude of the compared array (x max(1, cond C) for the "
